@@ -106,7 +106,7 @@ structure Env where
   xmute : List Int := List.replicate 64 0   -- (xxc[i].flg & XMP_CHANNEL_MUTE) ? 1 : 0
   newPos : Int := 0        -- p->pos after a sequencer call
   rows : Int := -1         -- rows of the pattern at the current position, −1 when that pattern is invalid
-  tempoOk : Bool := true   -- 0 ≤ ticksize ≤ XMP_MAX_FRAMESIZE/2 for the requested factor
+  tempoOk : Bool := true   -- 0 ≤ ticksize ≤ XMP_MAX_FRAMESIZE/4 for the requested factor
   mixerType : Int := 0
 deriving Repr
 
@@ -192,7 +192,7 @@ def setPlayer (s : State) (parm val : Int) : Res :=
     if val >= XMP_MODE_AUTO && val <= XMP_MODE_ITSMP then { ret := 0, state := { s with mode := val } }
     else { ret := ERR_INVALID, state := s }
   else if parm == XMP_PLAYER_VOICES then
-    if val >= 0 then { ret := 0, state := { s with voices := val } } else { ret := ERR_INVALID, state := s }
+    if val >= 0 && val <= 65536 then { ret := 0, state := { s with voices := val } } else { ret := ERR_INVALID, state := s }
   else { ret := ERR_INVALID, state := s }
 
 /-- `xmp_get_player` -/
